@@ -124,19 +124,21 @@ theorem AllBelow.append_one' {l : List Nat} {n x : Nat} (h : AllBelow l n) (hx :
 
 def LibsInv (g : GlobalLibs) : Prop :=
   AllBelow g.used g.all.length ∧ MapBelow g.usedMap g.used.length ∧
-  -- the used-lib map points at the entry of the library it is keyed by (improvement round)
-  ∀ kv ∈ g.usedMap, g.used[kv.2]? = some kv.1
+  -- the used-lib map points at the entry of the library it is keyed by, and finds every entry: a library
+  -- occurs at most once in the used list (improvement round)
+  (∀ kv ∈ g.usedMap, g.used[kv.2]? = some kv.1) ∧
+  (∀ (i h : Nat), g.used[i]? = some h → alookup g.usedMap h = some i)
 
 theorem GlobalLibs.handleFor_spec (g : GlobalLibs) (name : Str) (h : LibsInv g) :
     LibsInv (g.handleFor name).1 ∧ (g.handleFor name).2 < (g.handleFor name).1.all.length ∧
     g.all.length ≤ (g.handleFor name).1.all.length ∧ (g.handleFor name).1.used = g.used := by
-  obtain ⟨h1, h2, h3⟩ := h
+  obtain ⟨h1, h2, h3, h4⟩ := h
   unfold GlobalLibs.handleFor
   dsimp only
   split
   · rename_i hi
-    exact ⟨⟨h1, h2, h3⟩, hi, Nat.le_refl _, rfl⟩
-  · refine ⟨⟨?_, h2, h3⟩, by simp, by simp, rfl⟩
+    exact ⟨⟨h1, h2, h3, h4⟩, hi, Nat.le_refl _, rfl⟩
+  · refine ⟨⟨?_, h2, h3, h4⟩, by simp, by simp, rfl⟩
     intro x hx
     have := h1 x hx
     simp; omega
@@ -145,12 +147,12 @@ theorem GlobalLibs.indexForUsed_spec (g : GlobalLibs) (lib : Nat) (h : LibsInv g
     LibsInv (g.indexForUsed lib).1 ∧ (g.indexForUsed lib).2 < (g.indexForUsed lib).1.used.length ∧
     g.used.length ≤ (g.indexForUsed lib).1.used.length ∧ (g.indexForUsed lib).1.all = g.all ∧
     (g.indexForUsed lib).1.symtabs = g.symtabs := by
-  obtain ⟨h1, h2, h3⟩ := h
+  obtain ⟨h1, h2, h3, h4⟩ := h
   unfold GlobalLibs.indexForUsed
   cases hlk : alookup g.usedMap lib with
-  | some i => exact ⟨⟨h1, h2, h3⟩, h2.lookup hlk, Nat.le_refl _, rfl, rfl⟩
+  | some i => exact ⟨⟨h1, h2, h3, h4⟩, h2.lookup hlk, Nat.le_refl _, rfl, rfl⟩
   | none =>
-    refine ⟨⟨h1.append_one' hl, ?_, ?_⟩, by simp, by simp, rfl, rfl⟩
+    refine ⟨⟨h1.append_one' hl, ?_, ?_, ?_⟩, by simp, by simp, rfl, rfl⟩
     · intro kv hkv
       simp only [List.mem_cons] at hkv
       rcases hkv with rfl | hkv
@@ -161,13 +163,28 @@ theorem GlobalLibs.indexForUsed_spec (g : GlobalLibs) (lib : Nat) (h : LibsInv g
       rcases hkv with rfl | hkv
       · simp
       · exact getElem?_append_old _ (h3 kv hkv)
+    · intro i h hi
+      simp only [alookup]
+      simp only [getElem?_append_one] at hi
+      by_cases hlt : i < g.used.length
+      · rw [if_pos hlt] at hi
+        have hold := h4 i h hi
+        by_cases he : lib = h
+        · rw [← he, hlk] at hold; cases hold
+        · rw [if_neg he]; exact hold
+      · rw [if_neg hlt] at hi
+        split at hi
+        · cases hi
+          rename_i hie
+          simp [hie]
+        · cases hi
 
 /-- the returned index is the entry of `lib` in the used list -/
 theorem GlobalLibs.indexForUsed_get (g : GlobalLibs) (lib : Nat) (h : LibsInv g) :
     (g.indexForUsed lib).1.used[(g.indexForUsed lib).2]? = some lib := by
   unfold GlobalLibs.indexForUsed
   cases hlk : alookup g.usedMap lib with
-  | some i => exact h.2.2 _ (alookup_mem _ _ _ hlk)
+  | some i => exact h.2.2.1 _ (alookup_mem _ _ _ hlk)
   | none => simp
 
 theorem GlobalLibs.getLibName_some (g : GlobalLibs) (i : Nat) (h : LibsInv g) (hi : i < g.used.length) :
